@@ -39,6 +39,8 @@ class C02(Property):
                 extra = [["dfix", rnd.choice([1, 2, 3, 6])], [rnd.choice(["scale", "probe"])], rnd.choice([["dfix", rnd.choice([1, 4, 7])], ["dpull", rnd.choice([1, 2]), rnd.choice([0, 2])]])]
                 pos = rnd.randint(0, len(ln["chain"]))
                 ln["chain"][pos:pos] = extra
+        if rnd.random() < 0.3:
+            gen_coupling.with_user_adapters(spec, rnd, 0.4)  # user-defined push-based adapters in the place of shipped ones
         return spec
 
     def run(self, spec):
@@ -79,7 +81,7 @@ class C02(Property):
 
     def coverage_gaps(self, counters, tier):
         need = ["updates_judged", "requests_compared", "justification_chain_len_1", "justification_chain_len_2", "justification_chain_len_3",
-                "compositions_with_multi_delay_links", "compositions_with_parallel_links", "links_with_user_defined_delay_adapter"]
+                "compositions_with_multi_delay_links", "compositions_with_parallel_links", "links_with_user_defined_delay_adapter", "adapter_hold"]
         gaps = [f"{k} never observed" for k in need if not counters.get(k)]
         if counters.get("aborted_runs", 0) > 0.05 * max(1, counters.get("compositions", 0)):
             gaps.append(f"{counters.get('aborted_runs')} of {counters.get('compositions')} runs aborted for reasons outside this property")
